@@ -29,6 +29,7 @@ func init() {
 			"O9 index identity (R-TABLE): the recursive, direct and name index fields are each created by dsindex.New on the pinner's datastore with pairwise different key variables; " +
 			"O10 batch indirect bookkeeping (R-PAIR): in the batch traversal a CID found in the to-check set is removed from it on every path (otherwise it is reported both as indirect and as not pinned). " +
 			"O11 same-CID coupling (R-FLOW): a removal that runs only on the 'found' edge of an index lookup targets the looked-up CID and index kind; no removal of the mode just added for the same CID follows an addPin unless it is given the new pin's id; the CID whose graph was fetched / diffed (FetchGraph, DiffEnumerate target) is the CID that gets the recursive pin; the CIDs handed on by Pin derive from its node argument; a name kept from a loaded pin comes from a lookup in the index of the added mode whose non-empty edge guards the add. " +
+			"O12 query labels (R-DOM/R-TABLE): an answer labelled recursive/direct (Pinned{Mode:K}, or a (label,true) return with the label variable initialised from ModeToString(K)) lies on the found edge of a lookup in the index of that kind and not on the path of a test mode==K' for another concrete K'; an index chosen by a test on the mode parameter is the index of that mode; O13 (R-FLOW): in a removal loop over pin ids every Search of the recursive/direct index feeds the id slice (a merge drops its hits only where it returned none); O7 also: Unpin's removal mode is Any or a constant K reached only where a K pin was found. " +
 			"NOT decided: equivalence with the pin model on all histories, partial failures inside the primitive mutators and of the final Sync (datastore faults), what other goroutines do inside the unlock windows.",
 		Assume:    []string{"unexported fields and methods of pinner are only reachable from package dspinner", "callbacks passed to Indexer.ForEach / merkledag.Walk run synchronously in the calling goroutine"},
 		Technique: "role-based call classification + SSA path rules (R-DOM), forward lock-state dataflow (R-GUARD), typed-AST switch tables (R-EXH), sibling guards (R-SIB), pairing (R-PAIR)",
@@ -1301,6 +1302,8 @@ func runC22(c *an.Ctx) {
 	c22O9(m)
 	c22O10(m)
 	c22O11(m)
+	c22O12(m)
+	c22O13(m)
 	c22SweepImplementers(c, "O5", m.p.Named(c22Pin, "Pinner"), c22Pkg+".pinner")
 }
 
@@ -2249,6 +2252,17 @@ func c22O7(m *c22Model) {
 			"pins are removed only where a recursive or a direct pin was found", "Unpin can reach the removal although neither index holds the CID: ErrNotPinned is not reported / indirect pins are 'unpinned'")
 		c.Check(m.guardedDeep(fn, rm, recOK, nil, 0), "O7", "R-DOM", name, "remove-recursive<=recursive-flag", rm.Pos(),
 			"a recursive pin is removed only when recursive==true", "Unpin(c, recursive=false) can remove a recursive pin")
+		// the removal covers whichever pin was found: mode Any, or a constant
+		// mode K reached only where a pin of kind K was found
+		if mv := c22ModeArg(rm); mv != nil {
+			mn := m.modeName(mv)
+			covers := mn == "Any"
+			if k := map[string]string{"Recursive": "R", "Direct": "D"}[mn]; k != "" {
+				covers = m.guardedDeep(fn, rm, []c22Atom{{k, true, cidv, false}}, nil, 0)
+			}
+			c.Check(covers, "O7", "R-DOM", name, "remove-mode-covers-found-pin", rm.Pos(),
+				"the removal's mode covers the kind of pin that was found", "Unpin removes with mode "+mn+" although it is reached after a pin of another kind was found: that pin stays, Unpin reports success")
+		}
 	}
 	c.Min("O7 removals in Unpin", n, 1)
 }
@@ -2920,4 +2934,317 @@ func (m *c22Model) nameSource(fn *ssa.Function, site ssa.Instruction, idArg ssa.
 		return false, why
 	}
 	return true, ""
+}
+
+// O12: query answers are coupled with the index they come from. A positive
+// answer labelled Recursive (Direct) - a Pinned value built with that constant
+// mode, or a (label, true) return - lies on the found edge of a lookup in the
+// recursive (direct) index; it is not given under a test `mode == K` for another
+// concrete K; and an index selected by a test on the mode parameter is the
+// index of that mode.
+func c22O12(m *c22Model) {
+	c := m.c
+	kindOf := map[int64]string{m.modes["Recursive"]: "R", m.modes["Direct"]: "D"}
+	label := map[string]string{"recursive": "R", "direct": "D"}
+	what := map[string]string{"R": "recursive", "D": "direct"}
+	nLab, nSel := 0, 0
+	// label variables by role: package variables initialised from
+	// pinner.ModeToString(Recursive|Direct)
+	labelVar := map[*ssa.Global]string{}
+	for _, fn := range m.p.PkgFuncs(c22Pkg) {
+		an.Instrs(fn, func(in ssa.Instruction) {
+			st, ok := in.(*ssa.Store)
+			if !ok {
+				return
+			}
+			g, ok := st.Addr.(*ssa.Global)
+			if !ok {
+				return
+			}
+			for _, r := range an.Roots(st.Val, nil) {
+				v := r
+				if e, ok := v.(*ssa.Extract); ok {
+					v = e.Tuple
+				}
+				call, ok := an.IsCallTo(v, an.M(c22Pin, "", "ModeToString"))
+				if !ok || len(call.Call.Args) == 0 {
+					continue
+				}
+				if kc, ok := an.ConstOf(call.Call.Args[0]); ok && kc.Kind() == constant.Int {
+					n, _ := constant.Int64Val(kc)
+					if k := kindOf[n]; k != "" {
+						labelVar[g] = k
+					}
+				}
+			}
+		})
+	}
+	labelOf := func(v ssa.Value) string {
+		if lv, ok := an.ConstOf(v); ok && lv.Kind() == constant.String {
+			return label[constant.StringVal(lv)]
+		}
+		if ld, ok := v.(*ssa.UnOp); ok && ld.Op == token.MUL {
+			if g, ok := ld.X.(*ssa.Global); ok {
+				return labelVar[g]
+			}
+		}
+		return ""
+	}
+	for _, fn := range m.fns {
+		name := an.FuncName(fn)
+		lks := m.lookups(fn)
+		found := map[string]an.EdgeSet{"R": {}, "D": {}}
+		for _, lk := range lks {
+			found[lk.kind] = found[lk.kind].Union(lk.found)
+		}
+		var modePrm *ssa.Parameter
+		for _, prm := range fn.Params {
+			if an.TypeIs(prm.Type(), c22Pin, "Mode") {
+				modePrm = prm
+			}
+		}
+		// edges on which the mode parameter equals a concrete constant
+		modeIs := func(k int64, want bool) an.EdgeSet {
+			if modePrm == nil {
+				return an.EdgeSet{}
+			}
+			return an.CondEdges(fn, func(atom ssa.Value) (bool, bool) {
+				b, ok := atom.(*ssa.BinOp)
+				if !ok || (b.Op != token.EQL && b.Op != token.NEQ) {
+					return false, false
+				}
+				var kv ssa.Value
+				if b.X == ssa.Value(modePrm) {
+					kv = b.Y
+				} else if b.Y == ssa.Value(modePrm) {
+					kv = b.X
+				}
+				kc, isK := an.ConstOf(kv)
+				if kv == nil || !isK || kc.Kind() != constant.Int {
+					return false, false
+				}
+				if n, _ := constant.Int64Val(kc); n != k {
+					return false, false
+				}
+				eq := b.Op == token.EQL
+				return eq == want, eq != want
+			})
+		}
+		check := func(site ssa.Instruction, k string, form string) {
+			if len(lks) == 0 {
+				return // no index lookup in this function: the label is decided by a caller
+			}
+			nLab++
+			ok := len(found[k]) > 0 && an.GuardedBy(fn, nil, site, found[k])
+			c.Check(ok, "O12", "R-DOM", name, form+"("+what[k]+")<=found-in-"+what[k]+"-index", site.Pos(),
+				"the answer '"+what[k]+"' is given only where the "+what[k]+" index holds the CID",
+				"a pin is reported as "+what[k]+" without a hit in the "+what[k]+" index on the way: queries disagree with the pin model (recursive/direct mixed up)")
+			// not under a test for another concrete mode
+			for mn, mv := range m.modes {
+				if mn == "Any" || kindOf[mv] == k {
+					continue
+				}
+				if es := modeIs(mv, true); len(es) > 0 && an.GuardedBy(fn, nil, site, es) {
+					c.Bad("O12", "R-DOM", name, form+"("+what[k]+")-not-under-mode=="+mn, site.Pos(),
+						"the answer '"+what[k]+"' is given on the path taken when the caller asked for mode "+mn+": a mode-specific query answers with a pin of another mode")
+				}
+			}
+		}
+		// (a) Pinned{Mode: K}
+		an.Instrs(fn, func(in ssa.Instruction) {
+			st, ok := in.(*ssa.Store)
+			if !ok {
+				return
+			}
+			f, base := an.FieldOf(st.Addr)
+			if f == nil || !an.TypeIs(f.Type(), c22Pin, "Mode") || !an.TypeIs(base.Type(), c22Pin, "Pinned") {
+				return
+			}
+			kc, isK := an.ConstOf(st.Val)
+			if !isK || kc.Kind() != constant.Int {
+				return
+			}
+			n, _ := constant.Int64Val(kc)
+			if k := kindOf[n]; k != "" {
+				check(st, k, "Pinned")
+			}
+		})
+		// (b) return (label, true, ..)
+		for _, r := range an.Returns(fn) {
+			if len(r.Results) < 2 {
+				continue
+			}
+			bv, okB := an.ConstOf(c22RetVal(r, 1))
+			if !okB || bv.Kind() != constant.Bool || !constant.BoolVal(bv) {
+				continue
+			}
+			if k := labelOf(c22RetVal(r, 0)); k != "" {
+				check(r, k, "answer")
+			}
+		}
+		// (c) an index selected by a test on the mode parameter
+		if modePrm == nil {
+			continue
+		}
+		for _, b := range fn.Blocks {
+			for _, in := range b.Instrs {
+				phi, ok := in.(*ssa.Phi)
+				if !ok {
+					break
+				}
+				if !an.TypeIs(phi.Type(), c22IdxPkg, "Indexer") {
+					continue
+				}
+				kinds := make([]string, len(phi.Edges))
+				all := true
+				for i, e := range phi.Edges {
+					if ld, ok := e.(*ssa.UnOp); ok && ld.Op == token.MUL {
+						if f, _ := an.FieldOf(ld.X); f != nil {
+							kinds[i] = c22R.idxKind[f]
+						}
+					}
+					if kinds[i] != "R" && kinds[i] != "D" {
+						all = false
+					}
+				}
+				if !all {
+					continue
+				}
+				nSel++
+				okSel := true
+				for i, k := range kinds {
+					own, other := m.modes["Recursive"], m.modes["Direct"]
+					if k == "D" {
+						own, other = other, own
+					}
+					if !c44PhiEdgeGuarded(phi, i, modeIs(own, true)) && !c44PhiEdgeGuarded(phi, i, modeIs(other, false)) {
+						okSel = false
+					}
+				}
+				c.Check(okSel, "O12", "R-TABLE", name, "index-selected-by-mode", phi.Pos(),
+					"the recursive index is selected where mode is Recursive, the direct index where it is Direct (or not Recursive)",
+					"the index selected under a test on the mode parameter is not the index of that mode: Recursive queries read the direct index or vice versa")
+			}
+		}
+	}
+	c.Min("O12 labelled answers", nLab, 4)
+	c.Min("O12 indexes selected by mode", nSel, 1)
+}
+
+// O13: a removal loop covers every pin id it looked up. In a function that
+// removes pin records in a loop over a slice of ids, every Search of the
+// recursive / direct index made by that function feeds the slice: where one
+// merge input carries the hits of a Search and another does not, the latter is
+// taken only where that Search returned nothing (or is not reached after it).
+func c22O13(m *c22Model) {
+	c := m.c
+	n := 0
+	for _, fn := range m.fns {
+		if !m.removes[fn] && !m.prim[fn] {
+			continue
+		}
+		// the id slice walked by an induction variable
+		var ids ssa.Value
+		an.Instrs(fn, func(in ssa.Instruction) {
+			ia, ok := in.(*ssa.IndexAddr)
+			if !ok || !c44Induction(ia.Index) {
+				return
+			}
+			if sl, ok := ia.X.Type().Underlying().(*types.Slice); ok && c22IsStringT(sl.Elem()) {
+				ids = ia.X
+			}
+		})
+		if ids == nil {
+			continue
+		}
+		searches := map[ssa.CallInstruction]bool{}
+		for _, call := range an.AllCalls(fn) {
+			if c22IsIndexerCall(an.Callee(call), "Search") {
+				if k := c22IndexKind(call); k == "R" || k == "D" {
+					searches[call] = true
+				}
+			}
+		}
+		if len(searches) == 0 {
+			continue
+		}
+		var phis []*ssa.Phi
+		memo := map[ssa.Value]map[ssa.CallInstruction]bool{}
+		var srcs func(v ssa.Value, depth int) map[ssa.CallInstruction]bool
+		srcs = func(v ssa.Value, depth int) map[ssa.CallInstruction]bool {
+			if r, ok := memo[v]; ok {
+				return r
+			}
+			out := map[ssa.CallInstruction]bool{}
+			memo[v] = out
+			if depth > 12 {
+				return out
+			}
+			switch x := v.(type) {
+			case *ssa.Phi:
+				phis = append(phis, x)
+				for _, e := range x.Edges {
+					for k := range srcs(e, depth+1) {
+						out[k] = true
+					}
+				}
+			case *ssa.Extract:
+				if call, ok := x.Tuple.(*ssa.Call); ok && searches[call] && x.Index == 0 {
+					out[call] = true
+				}
+			case *ssa.Call:
+				if an.Callee(x).Builtin == "append" {
+					for _, a := range x.Call.Args {
+						for k := range srcs(a, depth+1) {
+							out[k] = true
+						}
+					}
+				}
+			}
+			return out
+		}
+		all := srcs(ids, 0)
+		if len(all) == 0 {
+			continue
+		}
+		name := an.FuncName(fn)
+		for sc := range searches {
+			n++
+			why := ""
+			if !all[sc] {
+				why = "its hits never reach the slice of ids that is removed"
+			}
+			res := an.Result(sc, 0)
+			empty := c22LenEdges(fn, res, false)
+			for _, phi := range phis {
+				carries := false
+				for _, e := range phi.Edges {
+					if srcs(e, 0)[sc] {
+						carries = true
+					}
+				}
+				if !carries {
+					continue
+				}
+				for i, e := range phi.Edges {
+					if srcs(e, 0)[sc] {
+						continue
+					}
+					pred := phi.Block().Preds[i]
+					if len(pred.Instrs) == 0 || !an.Reaches(fn, sc, pred.Instrs[len(pred.Instrs)-1], nil, nil) {
+						continue // this input is not taken after the search
+					}
+					if errs := an.ErrResult(sc); len(errs) > 0 && c44PhiEdgeGuarded(phi, i, an.NilEdges(fn, errs, false)) {
+						continue
+					}
+					if !c44PhiEdgeGuarded(phi, i, empty) {
+						why = "a merge takes the id slice without these hits on a path where the search may have returned some"
+					}
+				}
+			}
+			c.Check(why == "", "O13", "R-FLOW", name, c22CallLabel(sc)+"=>ids-removed", sc.Pos(),
+				"every id found by this search is in the slice whose pins are removed", "the ids found by "+c22CallLabel(sc)+" are not all removed ("+why+"): the pin stays although the removal reports success")
+		}
+	}
+	c.Min("O13 searches feeding a removal loop", n, 2)
 }
